@@ -470,6 +470,11 @@ def run_concrete(p: Proof, case, inputs: Optional[dict], seed: int, n: int) -> d
     base = int(hashlib.sha1(f"{seed}/{p.name}/{case_label(case)}".encode()).hexdigest()[:8], 16)
     todo = [inputs] if inputs is not None else [None] * n
     for k, inp in enumerate(todo):
+        if inp is not None and "__sample__" in inp:
+            # replay of a bounded-tier sample: same pseudo-random stream, remaining inputs re-drawn
+            base = int(hashlib.sha1(f"{inp['__seed__']}/{p.name}/{case_label(case)}".encode()).hexdigest()[:8], 16)
+            k = int(inp["__sample__"])
+            inp = None
         rng = random.Random(base + k)
         np.random.seed((base + k) % (2**32))
         c = Ctx("concrete", case, inputs=inp, rng=rng, scale=p.scale)
@@ -489,7 +494,9 @@ def run_concrete(p: Proof, case, inputs: Optional[dict], seed: int, n: int) -> d
         for clause, ok, info in c.results:
             h.update(f"{clause}:{int(ok)};".encode())
             if not ok:
-                out["failures"].append({"oid": p.oid(clause, case), "clause": clause, "inputs": dict(c.drawn),
+                out["failures"].append({"oid": p.oid(clause, case), "clause": clause,
+                                        "inputs": dict(c.drawn) if inputs is not None and "__sample__" not in (inputs or {})
+                                        else {**dict(c.drawn), "__sample__": k, "__seed__": seed},
                                         "info": {k2: str(v)[:600] for k2, v in info.items()}})
         for name, d in c.observed:
             h.update(f"{name}={d};".encode())
